@@ -2,16 +2,19 @@
   C19 (FISTA) — `stop()` interrupts promptly, leaving valid results.
 
   The stop flag is the oracle `stop : Nat → Bool` (a function of the number of oracle calls made so
-  far); FISTA polls it at one place only, the loop-head check `check_all_stop_conditions`.
+  far); FISTA polls it at the loop-head check `check_all_stop_conditions` and in the condition of
+  its step-size backtracking loop `while (!stop_requested() && L < L_max && qub_violated(…))`.
   * `fista_stop_at_head_exits`: a request visible at a loop-head check ends the solve *there*: the
     main loop returns the exit block of that very head — no further iteration, no further
     gradient evaluation; after the deciding check at most two more oracle calls happen (the final
     progress callback and, in the fixed-step mode, the late `eval_ψx̂` of the exit block).
   * `fista_stop_before_pass_exits` (monotone flag): a request raised before a pass of the loop body
-    starts ends the solve at that pass's head — so a request raised at *any* time costs at most the
-    remainder of the current pass, one extrapolation + gradient evaluation, and one more
-    prox / backtracking stage.  (The backtracking `while` itself does not poll the flag; it is
-    bounded by `L < L_max`.)
+    starts ends the solve at that pass's head.
+  * `fista_backtrack_noop`: once the flag is visible the backtracking loop makes no further call;
+    `fista_pass_ticks_after_stop`, `fista_ticks_after_stop` (monotone flag, visible from tick `t₀`):
+    the prox / backtracking stage of a pass that starts at tick `t` ends at tick
+    `≤ max (t + 3) (t₀ + 2)`, and the whole solve at tick `≤ max 8 (t₀ + 7)` — independent of the
+    number of step-size halvings the quadratic upper bound would still ask for.
   * `fista_interrupted_or_natural`: with the flag visible the status is `Interrupted` unless one of
     the natural exits (Converged, MaxTime, MaxIter, NotFinite, NoProgress) takes precedence.
   * valid results: `Props/C03_Fista.fista_exit_contract` already quantifies over all stop
@@ -45,25 +48,25 @@ theorem head_not_busy_of_stop (P : Problem α) (pr : Params α) (stop : Nat → 
 /-- **A stop request visible at a loop-head check ends the solve there.** -/
 theorem fista_stop_at_head_exits (P : Problem α) (pr : Params α) (stop : Nat → Bool) (oot : Bool)
     (x0 y Sig errz0 : Vec α) (fuel : Nat) (s : St α)
-    (hs : stop (headStep P pr stop oot (proxStage P pr s)).1.tick = true) :
+    (hs : stop (headStep P pr stop oot (proxStage P pr stop s)).1.tick = true) :
     mainLoop P pr stop oot x0 y Sig errz0 (fuel + 1) s =
-      exitBlock P pr (headStep P pr stop oot (proxStage P pr s)).1
-        (headStep P pr stop oot (proxStage P pr s)).2.1
-        (headStep P pr stop oot (proxStage P pr s)).2.2 x0 y Sig errz0 ∧
+      exitBlock P pr (headStep P pr stop oot (proxStage P pr stop s)).1
+        (headStep P pr stop oot (proxStage P pr stop s)).2.1
+        (headStep P pr stop oot (proxStage P pr stop s)).2.2 x0 y Sig errz0 ∧
     (mainLoop P pr stop oot x0 y Sig errz0 (fuel + 1) s).stats.iterations = s.k ∧
     (mainLoop P pr stop oot x0 y Sig errz0 (fuel + 1) s).ticks ≤
-      (headStep P pr stop oot (proxStage P pr s)).1.tick + 2 := by
-  have hb := head_not_busy_of_stop P pr stop oot (proxStage P pr s) hs
-  have hne : ((headStep P pr stop oot (proxStage P pr s)).2.2 != SolverStatus.Busy) = true := by
+      (headStep P pr stop oot (proxStage P pr stop s)).1.tick + 2 := by
+  have hb := head_not_busy_of_stop P pr stop oot (proxStage P pr stop s) hs
+  have hne : ((headStep P pr stop oot (proxStage P pr stop s)).2.2 != SolverStatus.Busy) = true := by
     simp [hb]
   have e : mainLoop P pr stop oot x0 y Sig errz0 (fuel + 1) s =
-      exitBlock P pr (headStep P pr stop oot (proxStage P pr s)).1
-        (headStep P pr stop oot (proxStage P pr s)).2.1
-        (headStep P pr stop oot (proxStage P pr s)).2.2 x0 y Sig errz0 := by
+      exitBlock P pr (headStep P pr stop oot (proxStage P pr stop s)).1
+        (headStep P pr stop oot (proxStage P pr stop s)).2.1
+        (headStep P pr stop oot (proxStage P pr stop s)).2.2 x0 y Sig errz0 := by
     rw [mainLoop]; simp only [hne, if_true]
   refine ⟨e, ?_, ?_⟩
   · rw [e, (exitBlock_fields P pr _ _ _ x0 y Sig errz0).2.2.1, (headStep_curr P pr stop oot _).2.1,
-      (proxStage_k P pr s).1]
+      (proxStage_k P pr stop s).1]
   · rw [e]; exact (exitBlock_fields P pr _ _ _ x0 y Sig errz0).2.2.2.2.2.1
 
 /-- Monotone flag: a request raised before a pass starts ends the solve at that pass's head. -/
@@ -76,7 +79,103 @@ theorem fista_stop_before_pass_exits (P : Problem α) (pr : Params α) (stop : N
   have h := fista_stop_at_head_exits P pr stop oot x0 y Sig errz0 fuel s hs'
   refine ⟨h.2.1, ?_⟩
   rw [h.1, (exitBlock_fields P pr _ _ _ x0 y Sig errz0).2.1]
-  exact head_not_busy_of_stop P pr stop oot (proxStage P pr s) hs'
+  exact head_not_busy_of_stop P pr stop oot (proxStage P pr stop s) hs'
+
+/-! ### The backtracking loop polls the flag -/
+
+/-- **Once the flag is visible the backtracking loop makes no further call.** -/
+theorem fista_backtrack_noop (P : Problem α) (pr : Params α) (stop : Nat → Bool) (f : Nat)
+    (c : Iterate α) (t b : Nat) (h : stop t = true) :
+    qubLoop P pr stop (f + 1) c t b = (c, t, b, false) :=
+  qubLoop_stop_noop P pr stop f c t b h
+
+/-- Monotone flag visible from tick `t₀` on: the prox / backtracking stage of a pass that starts at
+    tick `t` ends at tick `≤ max (t + 3) (t₀ + 2)` (`3` = prox step, `ψ(x̂)`, `∇ψ(x̂)`; `t₀ + 2` = the
+    halving in flight, then `∇ψ(x̂)`). -/
+theorem fista_pass_ticks_after_stop (P : Problem α) (pr : Params α) (stop : Nat → Bool)
+    (hmono : ∀ a b, a ≤ b → stop a = true → stop b = true) (t0 : Nat) (h0 : stop t0 = true)
+    (s : St α) : (proxStage P pr stop s).tick ≤ max (s.tick + 3) (t0 + 2) := by
+  have h1 : firstTick pr s ≤ s.tick + 2 := by unfold firstTick; split_ifs <;> omega
+  have h2 := qubLoop_tick_bound P pr stop hmono t0 h0 pr.qubFuel (firstStep P pr s) (firstTick pr s)
+    s.backtracks
+  unfold proxStage
+  simp only []
+  split_ifs <;> omega
+
+/-- Tick bound for the main loop: with a monotone flag visible from tick `t₀` on, a solve that is at
+    the top of a pass at tick `s.tick` ends at tick `≤ max (s.tick + 6) (t₀ + 7)`.
+    `6` = prox stage (`≤ 3`), the criterion's unit step, final callback, late `ψ(x̂)`;
+    `7`: a pass whose head polled the flag at a tick `≤ t₀ − 1` is followed by the progress callback
+    and `ψ, ∇ψ` at the next point (`≤ t₀ + 1`), the next pass's prox step, `ψ(x̂)` (its backtracking
+    loop then does nothing), `∇ψ(x̂)`, the criterion's unit step (`≤ t₀ + 5`), the final callback and
+    the late `ψ(x̂)`. -/
+theorem fista_mainLoop_ticks_after_stop (P : Problem α) (pr : Params α) (stop : Nat → Bool)
+    (hmono : ∀ a b, a ≤ b → stop a = true → stop b = true) (t0 : Nat) (h0 : stop t0 = true)
+    (oot : Bool) (x0 y Sig errz0 : Vec α) (fuel : Nat) (s : St α) :
+    (mainLoop P pr stop oot x0 y Sig errz0 fuel s).ticks ≤ max (s.tick + 6) (t0 + 7) := by
+  induction fuel generalizing s with
+  | zero =>
+    have := (exitBlock_fields P pr s (0 : α) .Exception x0 y Sig errz0).2.2.2.2.2.1
+    simp only [mainLoop]
+    omega
+  | succ f ih =>
+    have hp := fista_pass_ticks_after_stop P pr stop hmono t0 h0 s
+    have hht : (headStep P pr stop oot (proxStage P pr stop s)).1.tick
+        ≤ (proxStage P pr stop s).tick + 1 := by
+      have : epsTicks pr.stopCrit ≤ 1 := by cases pr.stopCrit <;> simp [epsTicks]
+      unfold headStep; simp only []; omega
+    by_cases hst : stop (headStep P pr stop oot (proxStage P pr stop s)).1.tick = true
+    · have := (fista_stop_at_head_exits P pr stop oot x0 y Sig errz0 f s hst).2.2
+      omega
+    · have hlt : (headStep P pr stop oot (proxStage P pr stop s)).1.tick < t0 := by
+        apply Nat.lt_of_not_le
+        intro hc
+        exact hst (hmono t0 _ hc h0)
+      unfold mainLoop
+      simp only []
+      split_ifs with hb
+      · have := (exitBlock_fields P pr (headStep P pr stop oot (proxStage P pr stop s)).1
+          (headStep P pr stop oot (proxStage P pr stop s)).2.1
+          (headStep P pr stop oot (proxStage P pr stop s)).2.2 x0 y Sig errz0).2.2.2.2.2.1
+        omega
+      · have hadv : (advance P pr (headStep P pr stop oot (proxStage P pr stop s)).1
+            (headStep P pr stop oot (proxStage P pr stop s)).2.1).tick
+            = (headStep P pr stop oot (proxStage P pr stop s)).1.tick + 2 := by
+          unfold advance; simp only []
+        have := ih (advance P pr (headStep P pr stop oot (proxStage P pr stop s)).1
+          (headStep P pr stop oot (proxStage P pr stop s)).2.1)
+        omega
+
+/-- **At most one further pass's worth of evaluations after `stop()`, wherever it lands** (the
+    backtracking loop included): if the flag, never lowered, is visible from tick `t₀` on, the solve
+    ends at tick `≤ max 8 (t₀ + 7)` — `8` = a request already visible at the first poll
+    (initialisation `≤ 2` calls, then `≤ 6` as above). -/
+theorem fista_ticks_after_stop (P : Problem α) (pr : Params α) (stop : Nat → Bool)
+    (hmono : ∀ a b, a ≤ b → stop a = true → stop b = true) (t0 : Nat) (h0 : stop t0 = true)
+    (oot : Bool) (x0 y Sig errz0 gV : Vec α) (nan inf : α) :
+    (run P pr stop oot x0 y Sig errz0 gV nan inf).ticks ≤ max 8 (t0 + 7) := by
+  have hit : (initIterate P pr x0 gV nan).2 ≤ 2 := by
+    unfold initIterate; simp only []; split_ifs <;> simp
+  unfold run
+  cases hi : initState P pr x0 gV nan with
+  | inl t =>
+    simp only []
+    unfold initState at hi
+    simp only [] at hi
+    split_ifs at hi
+    injection hi with hi
+    omega
+  | inr s =>
+    simp only []
+    have hs : s.tick ≤ 2 := by
+      unfold initState at hi
+      simp only [] at hi
+      split_ifs at hi
+      injection hi with hi
+      subst hi
+      exact hit
+    have := fista_mainLoop_ticks_after_stop P pr stop hmono t0 h0 oot x0 y Sig errz0 (pr.maxIter + 2) s
+    omega
 
 /-- With the flag visible, the status is `Interrupted` unless a natural exit takes precedence. -/
 theorem fista_interrupted_or_natural (P : Problem α) (pr : Params α) (stop : Nat → Bool) (oot : Bool)
@@ -108,6 +207,19 @@ example : (run exP3 { exPr with maxIter := 50, tolerance := 1/1000, alwaysOverwr
       (fun t => decide (t ≥ 3)) false [2] [1] [2] [0] [] 0 0).stats.iterations = 1 ∧
     (run exP3 { exPr with maxIter := 50, tolerance := 1/1000, alwaysOverwrite := false }
       (fun t => decide (t ≥ 3)) false [2] [1] [2] [0] [] 0 0).x = [1/2] := by
+  decide +kernel
+
+/-- an instance whose first backtracking loop runs to `L_max` (`ψ(x̂)` huge, `L_0 = 1`,
+    `L_max = 16`: 4 halvings); a request landing inside it (flag visible from tick 4, i.e. during
+    the first halving) ends the loop after that halving, and the head of that pass returns
+    `Interrupted` at tick 6 ≤ max 8 (4 + 7) with the single final callback -/
+example :
+    let r := fun k : Nat => run { exP with psi := fun _ => (1000, [3]), prox := fun _ _ _ => (0, [1/2], [1]) }
+      { exPr with L0 := 1, Lmin := 1/2, Lmax := 16, maxIter := 5, tolerance := 1/1000 }
+      (fun t => k != 0 && t ≥ k) false [2] [1] [2] [0] [] 0 0
+    (r 0).stats.stepsizeBacktracks = 4 ∧ (r 0).ticks = 32 ∧
+    (r 4).stats.stepsizeBacktracks = 1 ∧ (r 4).ticks = 6 ∧ (r 4).stats.status = .Interrupted ∧
+    (r 4).stats.iterations = 0 ∧ (r 4).callbacks.length = 1 ∧ (r 4).fuelOut = false := by
   decide +kernel
 
 end Alpaqa.Props.C19_Fista
